@@ -25,6 +25,21 @@ pub fn make_engine(case: &Case, oracles: Oracles) -> Result<Engine, Fail> {
             let (bytes, model) = crate::synth::foreign_start(*seed, case.version, &case.pool)?;
             Engine::from_image(bytes, model, case.version, case.max_buf, case.pool.clone(), oracles, false)
         }
+        Start::Deviant { seed, devs } => {
+            let (mut bytes, model) = crate::synth::foreign_start(*seed, case.version, &case.pool)?;
+            let parsed = crate::refparse::parse(&bytes).map_err(|e| Fail::new("harness|parse", e))?;
+            for (d, sel) in devs.iter() {
+                let dev = crate::props::c16::ALL_DEVS[*d as usize % crate::props::c16::ALL_DEVS.len()];
+                // deviations that a known finding says are not tolerated in combination
+                if matches!(dev, crate::props::c16::Dev::NumFatPlus | crate::props::c16::Dev::NumFatMany) {
+                    continue;
+                }
+                crate::props::c16::apply_dev(&mut bytes, &parsed, dev, *sel);
+            }
+            let mut o = oracles;
+            o.no_strict = true;
+            Engine::from_image(bytes, model, case.version, case.max_buf, case.pool.clone(), o, false)
+        }
     }
 }
 
@@ -71,7 +86,9 @@ pub fn run_ops(eng: &mut Engine, ops: &[Op], mut hook: Option<Hook>) -> (Result<
         }
         if eng.oracles.final_reopen || eng.oracles.reopen_check {
             eng.check_reopen(false, "final")?;
-            eng.check_reopen(true, "final")?;
+            if !eng.oracles.no_strict {
+                eng.check_reopen(true, "final")?;
+            }
         }
         Ok(())
     })();
@@ -154,8 +171,10 @@ fn after_step(eng: &mut Engine, i: usize, op: &Op, boundaries: &mut usize) -> Re
             eng.stats.boundaries_checked += 1;
             let c1 = eng.check_reopen(false, "boundary")?;
             drop(c1);
-            let c2 = eng.check_reopen(true, "boundary")?;
-            drop(c2);
+            if !eng.oracles.no_strict {
+                let c2 = eng.check_reopen(true, "boundary")?;
+                drop(c2);
+            }
             if o.reopen_replace_every > 0 && *boundaries % o.reopen_replace_every == 0 && op.is_mutation() {
                 let strict = (*boundaries / o.reopen_replace_every) % 2 == 0;
                 eng.reopen(strict, "replace")?;
